@@ -142,11 +142,81 @@ def plan(tier, seed):
     out = [{'kind': 'daemon', 'seed': seed, 'idx': i} for i in range(n)]
     m = 48 if tier == 'quick' else 600
     out += [{'kind': 'client', 'seed': seed, 'idx': i} for i in range(m)]
+    # real circusd, real ZeroMQ: requests of every size up to a few MiB get exactly one reply each
+    out += [{'kind': 'live-sizes', 'seed': seed, 'idx': i} for i in range(2 if tier == 'quick' else 10)]
     return out
+
+
+def live_sizes(spec, res):
+    import zmq
+    from vlib import live
+    rnd = rng_for(spec['seed'], 'C06-live', spec['idx'])
+    d = live.Daemon('', strace=False)
+    d.ini = (d.header(check_delay=1.0) + '[watcher:a]\ncmd = %s\nnumprocesses = 1\ngraceful_timeout = 1\n'
+             'copy_env = True\n\n' % live.worker_cmd({'log': '@LOG@'})).replace('@DIR@', d.dir).replace('@LOG@', d.logdir)
+    with open(d.ini_path, 'w') as f:
+        f.write(d.ini)
+    ctx = zmq.Context()
+    try:
+        d.start()
+        if not d.wait_ready(20):
+            res.inconclusive.append('live: daemon not ready: ' + d.output()[-200:])
+            return
+        sizes = [10, 1000, 30000, 65000, 65536, 66000, 70000, 300000] + [rnd.randint(60000, 3000000) for _ in range(3)]
+        rnd.shuffle(sizes)
+        for n, size in enumerate(sizes):
+            sock = ctx.socket(zmq.DEALER)
+            sock.setsockopt(zmq.LINGER, 0)
+            sock.connect(d.endpoint)
+            mid = 'big-%d-%d' % (spec['idx'], n)
+            how = rnd.choice(['env', 'name', 'cmd', 'extra'])
+            props = {'name': 'w%d' % n, 'cmd': 'sleep 30', 'options': {}}
+            if how == 'env':
+                props['options'] = {'env': {'K': 'x' * size}}
+            elif how == 'name':
+                props['name'] = 'n' * size
+            elif how == 'cmd':
+                props['cmd'] = 'sleep 30 ' + 'y' * size
+            else:
+                props['padding'] = 'z' * size
+            sock.send(json.dumps({'id': mid, 'command': 'add', 'properties': props}).encode())
+            got = []
+            t_end = time.time() + 8
+            while time.time() < t_end:
+                if sock.poll(200):
+                    try:
+                        got.append(json.loads(sock.recv()))
+                    except ValueError:
+                        got.append('not-json')
+                    t_end = min(t_end, time.time() + 0.6)       # a duplicate would follow at once
+            sock.close()
+            res.obs['live_requests_by_size'] += 1
+            res.hist['live_request_kib'][size // 1024 // 64 * 64] += 1
+            mine = [g for g in got if isinstance(g, dict) and g.get('id') == mid]
+            if len(mine) != 1:
+                res.violation('C06/live:reply-count[request-of-%s]:%d-instead-of-1'
+                              % ('more-than-64KiB' if size > 60000 else 'ordinary-size', len(mine)),
+                              'add with a %d byte %s got %d replies bearing its id within 8 s (all frames: %d)'
+                              % (size, how, len(mine), len(got)))
+            else:
+                res.nontrivial(repr(('live-size', size // 65536, how, mine[0].get('status'))))
+            # the daemon still answers the next request
+        r = d.call('numwatchers')
+        if r.get('status') != 'ok':
+            res.violation('C06/live:daemon-stopped-answering', 'after the size sweep numwatchers answered %s' % str(r)[:100])
+        res.sample = {'live': True, 'request_sizes': sizes}
+    finally:
+        ctx.destroy(linger=0)
+        d.cleanup()
 
 
 def run_case(spec):
     res = CaseResult()
+    if spec['kind'] == 'live-sizes':
+        live_sizes(spec, res)
+        for v in res.viol:
+            v['spec'] = spec
+        return res
     if spec['kind'] == 'client':
         client_case(spec, res)
         return res
@@ -370,18 +440,50 @@ def client_case(spec, res):
     res.obs['client_cases_reusing_one_message_object'] += int(reuse)
     try:
         if not use_async:
-            cl = CircusClient(context=ctx, endpoint=ep, timeout=0.25)
-            for k, script in enumerate(scripts):
-                t0 = time.time()
-                try:
-                    r = cl.call(shared if reuse else {'command': 'list', 'properties': {}})
-                    out = ('reply', r)
-                except CallError as e:
-                    out = ('callerror', str(e))
-                except Exception as e:          # noqa
-                    out = ('exception', type(e).__name__ + ': ' + str(e))
-                judge_client(res, 'CircusClient', k, script, out, peer, time.time() - t0)
-            cl.stop()
+            import types
+            import circus.client as cc
+            # if the client code measures time with the wall clock, that clock is stepped while a call waits (a
+            # module that does not use `time` has nothing to rebind: its waiting is the poller's)
+            step = {'off': 0.0}
+            if hasattr(cc, 'time') and isinstance(cc.time, types.ModuleType):
+                class _T(types.ModuleType):
+                    def time(self):
+                        return time.time() + step['off']
+
+                    def __getattr__(self, n):
+                        return getattr(time, n)
+                cc.time = _T('time')
+                res.obs['client_cases_with_a_stepped_wall_clock'] += 1
+            outs = []
+
+            def calls():
+                cl = CircusClient(context=ctx, endpoint=ep, timeout=0.25)
+                for k, script in enumerate(scripts):
+                    t0 = time.time()
+                    if k % 2:
+                        threading.Timer(0.05, lambda: step.__setitem__('off', step['off'] + rnd.choice([-3600.0, 3600.0]))).start()
+                    try:
+                        r = cl.call(shared if reuse else {'command': 'list', 'properties': {}})
+                        out = ('reply', r)
+                    except CallError as e:
+                        out = ('callerror', str(e))
+                    except Exception as e:          # noqa
+                        out = ('exception', type(e).__name__ + ': ' + str(e))
+                    outs.append((k, script, out, time.time() - t0))
+                cl.stop()
+            th = threading.Thread(target=calls, daemon=True)
+            th.start()
+            th.join(len(scripts) * 1.5 + 8)
+            for k, script, out, took in outs:
+                judge_client(res, 'CircusClient', k, script, out, peer, took)
+                if took > 3.0:
+                    res.violation('C06/client-call-slow:CircusClient', 'call %d with peer script %s returned after %.1fs '
+                                  '(timeout 0.25 s)' % (k, script, took))
+            if th.is_alive():
+                k = len(outs)
+                res.violation('C06/client-call-never-returned:CircusClient',
+                              'call %d (peer script %s, timeout 0.25 s) had not returned after %.0f s'
+                              % (k, scripts[k] if k < len(scripts) else '?', len(scripts) * 1.5 + 8))
         else:
             async_client(res, ctx, ep, scripts, peer, shared if reuse else None)
     finally:
